@@ -16,10 +16,10 @@ LEVEL = "exploration"
 DESIGN_REF = "DESIGN.md 4/C11"
 RULE = (
     "symbol = name {r.A, r.B} x version {0.1, 0.2, 1.0, 1.1, 2.0} x kind {message, service} x fixed port-ID {none, p, q} x layout "
-    "{sealed, extent 64 bytes, extent 128 bytes} (180 symbols; thorough: services with independent request / response layouts, 300 "
-    "symbols); case = (set of symbols with distinct identities, placement): every unordered pair (14,580) in placement 'all targets', "
+    "{sealed 1 byte, sealed 2 bytes, extent 64 bytes, extent 128 bytes} (240 symbols; thorough: services with independent request / response layouts, 300 "
+    "symbols); case = (set of symbols with distinct identities, placement): every unordered pair in placement 'all targets', "
     "pairs whose second member is a message additionally in placements 'in a lookup root and referenced' and 'in a lookup root, "
-    "unreferenced'; thorough: every triple over a 60-symbol sub-alphabet. Non-trivial iff two members share a name or a port-ID; "
+    "unreferenced'; chains: every combination of three minor versions of one type (port-ID none/p x sealed/extent per version) x every split of the members between the target root and a referenced lookup root; thorough: every triple over a 60-symbol sub-alphabet. Non-trivial iff two members share a name or a port-ID; "
     "distinct by canonical hash of (symbols, placement)"
 )
 ASSUMPTIONS = [
@@ -31,7 +31,7 @@ NAMES = ["r.A", "r.B"]
 VERSIONS = [[0, 1], [0, 2], [1, 0], [1, 1], [2, 0]]
 KINDS = ["message", "service"]
 PORTS = [None, 0, 1]  # index into the kind's port table
-LAYOUTS = ["sealed", "e64", "e128"]
+LAYOUTS = ["sealed", "sealed16", "e64", "e128"]  # two sealed layouts of different size
 PORT_TABLE = {"message": [6200, 6201], "service": [300, 301]}
 
 
@@ -48,7 +48,7 @@ def symbols(tier):
 
 
 def mode_line(l):
-    return {"sealed": "@sealed", "e64": "@extent 64 * 8", "e128": "@extent 128 * 8"}[l]
+    return {"sealed": "@sealed", "sealed16": "uint8 b\n@sealed", "e64": "@extent 64 * 8", "e128": "@extent 128 * 8"}[l]
 
 
 def text_of(s):
@@ -64,7 +64,7 @@ def file_of(s, root="r"):
 
 
 def extent_of(l):
-    return {"sealed": 8, "e64": 512, "e128": 1024}[l]
+    return {"sealed": 8, "sealed16": 16, "e64": 512, "e128": 1024}[l]
 
 
 def cross(direct, transitive):
@@ -94,7 +94,7 @@ def cross(direct, transitive):
             for i in parts:
                 if extent_of(a["layout"][i]) != extent_of(b["layout"][i]):
                     return False
-                if (a["layout"][i] == "sealed") != (b["layout"][i] == "sealed"):
+                if a["layout"][i].startswith("sealed") != b["layout"][i].startswith("sealed"):
                     return False
     return True
 
@@ -102,6 +102,7 @@ def cross(direct, transitive):
 def plan(tier):
     parts = 48 if tier == "quick" else 128
     shards = [{"kind": "pairs", "part": p, "parts": parts} for p in range(parts)]
+    shards += [{"kind": "chains", "part": p, "parts": 8} for p in range(8)]
     if tier != "quick":
         shards += [{"kind": "triples", "part": p, "parts": 128} for p in range(128)]
     return shards
@@ -112,7 +113,24 @@ def sub_alphabet(tier):
     return [s for s in syms if s["ver"] in ([0, 1], [1, 0], [1, 1], [2, 0]) and s["layout"][0] != "e128" and not (s["port"] is not None and s["port"] in (6201, 301) and s["name"] == "r.B")][:60]
 
 
+def chain_symbols():
+    """three minor versions of one message type under one major: every choice of port-ID and layout per version"""
+    per = []
+    for v in ([1, 0], [1, 1], [1, 2]):
+        per.append([{"name": "r.A", "ver": v, "kind": "message", "port": p, "layout": [l, l]} for p in (None, 6200) for l in ("sealed", "e64")])
+    return per
+
+
 def cases(shard, tier):
+    if shard["kind"] == "chains":
+        i = 0
+        for combo in itertools.product(*chain_symbols()):
+            # which members live in a same-named lookup root and are referenced from the newest target member
+            for mask in range(0, 7):
+                if i % shard["parts"] == shard["part"]:
+                    yield {"symbols": list(combo), "tier": tier, "chain_lookup_mask": mask}
+                i += 1
+        return
     if shard["kind"] == "pairs":
         syms = symbols(tier)
         i = 0
@@ -134,7 +152,63 @@ def cases(shard, tier):
             i += 1
 
 
+def check_chain(case, R: engine.Acc):
+    S = case["symbols"]
+    mask = case["chain_lookup_mask"]
+    in_lookup = [s for i, s in enumerate(S) if mask >> i & 1]
+    targets = [s for i, s in enumerate(S) if not mask >> i & 1]
+    files = {}
+    referrer = targets[-1]  # the newest member that is a target refers to every lookup member
+    for s in targets:
+        t = text_of(s)
+        if s is referrer and in_lookup:
+            # referenced through a constant in an expression: the lookup member becomes transitive, the referrer's layout is unchanged
+            t = "".join("@assert %s.%d.%d.K == 1\n" % (x["name"], x["ver"][0], x["ver"][1]) for x in in_lookup) + t
+        files[file_of(s)] = t
+    for s in in_lookup:
+        files[file_of(s, "q/r")] = text_of(s)
+    # the reference fields change the referrer's size: sealed layouts of the referrer then differ from its siblings
+    direct = list(targets)
+    transitive = list(in_lookup)
+    exp_ok = cross_chain(direct, transitive)
+    R.case([S, mask], nontrivial=True, sample=(mask == 1 and not exp_ok and len(R.samples) < 3))
+    o = api.read_namespace_tree(files, "r", ["q/r"] if in_lookup else [])
+    one = dict(case)
+    if o.error is not None and not o.error["ide"]:
+        R.violation("foreign-exception:%s@%s" % (o.error["cls"], o.error.get("culprit")), "violating sets are rejected with InvalidDefinitionError", one, observed=o.error)
+        return
+    accepted = o.error is None
+    if accepted == exp_ok:
+        R.outcome(("accepted" if accepted else "rejected") + ":chain")
+    elif accepted:
+        R.violation("violating-set-accepted:chain:%s" % ("split" if in_lookup else "targets"), "every violating set is rejected (all pairs of minor versions, direct and transitive)", one, observed="accepted", expected="InvalidDefinitionError")
+    else:
+        R.violation("conforming-set-rejected:%s:chain" % o.error["cls"], "every conforming set is accepted", one, observed=o.error, expected="accepted")
+
+
+def cross_chain(direct, transitive):
+    def ext(s):
+        return {"sealed-with-refs": -1}.get(s["layout"][0], None) if s["layout"][0] == "sealed-with-refs" else extent_of(s["layout"][0])
+
+    allv = direct + transitive
+    for a, b in itertools.combinations(allv, 2):
+        if (a["port"] is None) == (b["port"] is None):
+            if a["port"] != b["port"]:
+                return False
+        else:
+            newer = a if a["ver"][1] > b["ver"][1] else b
+            if newer["port"] is None:
+                return False
+        sa, sb = a["layout"][0].startswith("sealed"), b["layout"][0].startswith("sealed")
+        if sa != sb or ext(a) != ext(b):
+            return False
+    # port collisions cannot occur: one name, one major
+    return True
+
+
 def check_case(case, R: engine.Acc):
+    if "chain_lookup_mask" in case:
+        return check_chain(case, R)
     S = case["symbols"]
     placements = case.get("placements") or (["targets", "lookup-referenced", "lookup-unreferenced"] if S[-1]["kind"] == "message" else ["targets"])
     share = any(a["name"] == b["name"] or (a["port"] is not None and a["port"] == b["port"]) for a, b in itertools.combinations(S, 2))
@@ -197,7 +271,7 @@ def why(direct, transitive) -> str:
 
 
 def finish(tier, M):
-    need = ["accepted:targets", "rejected:targets", "accepted:lookup-referenced", "rejected:lookup-referenced", "accepted:lookup-unreferenced"]
+    need = ["accepted:targets", "rejected:targets", "accepted:lookup-referenced", "rejected:lookup-referenced", "accepted:lookup-unreferenced", "accepted:chain", "rejected:chain"]
     miss = [n for n in need if not M.hist.get(n)]
     if miss:
         raise engine.Vacuous("outcome classes not seen: %s" % miss)
